@@ -9,6 +9,8 @@ Prog_2W1R == << << <<"upd", 2>>, <<"upd", 1>> >>, << <<"upd", 3>>, <<"try", 1>> 
 Prog_1W1R == << << <<"upd", 1>>, <<"upd", 2>>, <<"upd", 3>> >>, << <<"snap">>, <<"snap">> >> >>
 \* a thread that updates and then reads (recency in program order), against another writer
 Prog_Mixed == << << <<"upd", 2>>, <<"snap">> >>, << <<"try", 1>>, <<"upd", 3>> >> >>
-\* thorough: two writers, two readers with two snapshots each
-Prog_2W2R == << << <<"upd", 1>>, <<"upd", 3>> >>, << <<"upd", 2>>, <<"try", 4>> >>, << <<"snap">>, <<"snap">> >>, << <<"snap">> >> >>
+\* thorough: two writers (one laps both slots), two readers
+Prog_2W2R == << << <<"upd", 1>>, <<"upd", 3>> >>, << <<"upd", 2>> >>, << <<"snap">> >>, << <<"snap">> >> >>
+\* not model-checked (no verdict after 50 min at 8 workers); its shape is run by the random schedules on the real code
+Prog_2W2R_big == << << <<"upd", 1>>, <<"upd", 3>> >>, << <<"upd", 2>>, <<"try", 4>> >>, << <<"snap">>, <<"snap">> >>, << <<"snap">> >> >>
 =============================================================================
